@@ -313,6 +313,10 @@ class Worker(metaclass=SupportClassPropertiesMeta):
             > nor that they won't. This might change in the future, so that the behaviour is consistent at least in the case of ``user_state``,
             > if proven beneficial.
         '''
+        if self._started and not self.is_child:
+            # process workers fetch the final result - and the state sent with it - lazily: make sure
+            # that has happened, otherwise the initial state is returned until `result` is read
+            self._get_result()
         return self._user_state
 
     @user_state.setter
